@@ -74,3 +74,40 @@ Definition grid_of_json (j : jtable) : list row :=
   :: map (fun c => CStr (snd (fst c))) (j_cols j)
   :: rows_of_columns cols fuel.
 End Json.
+
+(* to_json_serializable on one python scalar (a cell): None = NotImplementedError *)
+Definition leaf_of_scalar (c : cell) : option jleaf :=
+  match c with
+  | CStr s => Some (JStr s)
+  | CNone => Some JNull
+  | CInt z _ _ => Some (JInt z)
+  | CFloat f _ => Some (if (f =? nan_tok)%N then JNull else JFloat f)
+  | CBool b => Some (JBool b)
+  | CDate _ r => Some (JStr r)          (* str(obj) *)
+  | CNaT => Some JNull                  (* str(NaT) = "NaT" -> None *)
+  | COther _ _ => None
+  end.
+
+Fixpoint leaves_of (cs : list cell) : option (list jleaf) :=
+  match cs with
+  | [] => Some []
+  | c :: rest => match leaf_of_scalar c, leaves_of rest with
+                 | Some l, Some ls => Some (l :: ls)
+                 | _, _ => None
+                 end
+  end.
+
+(* table_to_json_data: name, destinations, columns in table order with unit and list(df[col]) *)
+Fixpoint json_cols (cols : list (str * str * list cell)) : option (list (str * str * list jleaf)) :=
+  match cols with
+  | [] => Some []
+  | (n, u, vs) :: rest => match leaves_of vs, json_cols rest with
+                          | Some ls, Some r => Some ((n, u, ls) :: r)
+                          | _, _ => None
+                          end
+  end.
+Definition table_to_json (name : str) (dests : list str) (cols : list (str * str * list cell)) : option jtable :=
+  match json_cols cols with
+  | Some c => Some {| j_name := name; j_dests := dests; j_cols := c |}
+  | None => None
+  end.
